@@ -2,6 +2,7 @@ import NetVerif.Model.ChanSem
 import NetVerif.Proofs.Lemmas.GateInv
 import NetVerif.Gen.C29
 import NetVerif.Proofs.Lemmas.QueueGlobal
+import NetVerif.Proofs.Lemmas.QueueKnow
 import NetVerif.Proofs.Lemmas.MonitorSound
 /-!
 C29 — QUIC gates and queues provide exclusion without lost wakeups.
@@ -490,22 +491,62 @@ theorem queue_close_permanent {c c' : QConfig} {i : Nat} {a : QAct}
   have hI := queue_invariant h
   exact (qstep_local hI.swf (hI.wf qg (List.mem_of_getElem? hg)) hst).closed hcl
 
-/-- NOT proved here (checked on the real code by the stress oracle, which reports a Go panic
-as a failure): `get` never indexes an empty slice.  It needs one more flow invariant (after a
-successful `waitAndLock` the holder knows `err ∨ q ≠ []` until it pops). -/
+/-- Full statement: `get` never indexes an empty slice. -/
 def queue_get_never_panics_Statement : Prop :=
   ∀ c, QReachable queue gate c → ∀ qg ∈ c.gs, qg.panicked = false
 
-/-- NOT proved here (checked by the stress monitor: `put-accepted-after-close-returned`):
-a `put` that starts after the queue was closed appends nothing. -/
+/-- **`get` never pops an empty queue**: under the gate, whenever the dequeue statement runs,
+`len(q.q) > 0` — `waitAndLock` only acquires from `set`, the token is in `set` only if the queue
+is closed or non-empty (`queue_condition_recomputed`), nobody else touches the fields meanwhile
+(`queue_data_access_exclusive`), and `get` has checked `q.err == nil` before it pops. -/
+theorem queue_get_never_panics : queue_get_never_panics_Statement := by
+  intro c h qg hqg
+  obtain ⟨j, hj⟩ := List.mem_iff_getElem?.mp hqg
+  exact ((queue_invariant_know h).know j qg hj).nopanic
+
+/-- Full statement: once the queue is closed no `put` appends anything. -/
 def queue_put_after_close_rejected_Statement : Prop :=
   ∀ c c' i a, QReachable queue gate c → c.step queue gate i a = some c' → c.sh.err = true →
     c'.sh.accepted = c.sh.accepted
 
-/-- The literal reading "every item put before close is delivered" is FALSE by design:
-`close` makes pending and future `get`s fail even if items are still queued (documented on
-`queue.close`).  Witness: put 7; close; the item stays in `q` forever while every `get`
-returns the close error. What holds is `queue_fifo`. -/
+theorem queue_put_after_close_rejected : queue_put_after_close_rejected_Statement := by
+  intro c c' i a h hs he
+  rw [(qinvk_step (queue_invariant_know h) hs).2.1 he]
+
+/-- **What holds for "every item put before it was closed is delivered exactly once, in FIFO
+order"** (C29, queue clause), at every point of every interleaving:
+1. accepted = delivered ++ queued;
+2. a step changes the shared fields in exactly one of three ways: it sets `err`; or — only while
+   the queue is OPEN — it appends one item at the back (recording it as accepted) or removes the
+   FRONT item (recording it as delivered).  So the k-th delivered item is the k-th accepted one:
+   exactly once, in FIFO order, nothing skipped, as long as close does not intervene;
+3. once the queue is closed NOTHING changes any more: no item is accepted and none is
+   delivered, i.e. the queued remainder `accepted − delivered` is discarded, as documented on
+   `queue.close` ("causing pending and future pop operations to return immediately with err"). -/
+theorem queue_items_before_close {c : QConfig} (h : QReachable queue gate c) :
+    c.sh.accepted = c.sh.delivered ++ c.sh.q ∧
+    (∀ c' i a, c.step queue gate i a = some c' →
+      c'.sh = c.sh ∨ c'.sh = { c.sh with err := true } ∨
+      (c.sh.err = false ∧ ∃ x, c'.sh = { c.sh with q := c.sh.q ++ [x], accepted := c.sh.accepted ++ [x] }) ∨
+      (c.sh.err = false ∧ ∃ x r, c.sh.q = x :: r ∧
+        c'.sh = { c.sh with q := r, delivered := c.sh.delivered ++ [x] })) ∧
+    (c.sh.err = true → ∀ c' i a, c.step queue gate i a = some c' → c'.sh = c.sh) := by
+  refine ⟨queue_fifo h, ?_, ?_⟩
+  · intro c' i a hs
+    obtain ⟨_, hfrozen, hkind⟩ := qinvk_step (queue_invariant_know h) hs
+    cases he : c.sh.err
+    · rcases hkind with h1 | h1 | h1 | h1
+      · exact Or.inl h1
+      · exact Or.inr (Or.inl h1)
+      · exact Or.inr (Or.inr (Or.inl ⟨rfl, h1⟩))
+      · exact Or.inr (Or.inr (Or.inr ⟨rfl, h1⟩))
+    · exact Or.inl (hfrozen he)
+  · intro he c' i a hs
+    exact (qinvk_step (queue_invariant_know h) hs).2.1 he
+
+/-- The literal strongest reading — nothing is left in the queue once it is closed, i.e. every
+accepted item is delivered even if `close` intervenes — is what the code deliberately does NOT
+do. -/
 def queue_items_survive_close_Statement : Prop :=
   ∀ c, QReachable queue gate c → c.sh.err = true → c.sh.q = []
 
@@ -560,5 +601,23 @@ example : ∃ c, QReachable queue gate c ∧ qholders c.gs = 0 ∧ c.sh.q = [7] 
   refine ⟨(runQ (QConfig.init gate 2) demoQ).get hs, ?_, by rfl, by rfl, by rfl, by rfl, ?_⟩
   · exact reachable_runQ demoQ (QReachable.init 2) (Option.some_get hs).symm
   · exact ⟨_, rfl, rfl, by decide⟩
+
+/-- One goroutine runs `put 7` to completion and then `close` to completion. -/
+def demoClose : List (Nat × QAct) :=
+  [(0, .call .put 7), (0, .stmt), (0, .gate (.run (.arm 1))), (0, .stmt), (0, .stmt), (0, .stmt),
+   (0, .stmt), (0, .stmt), (0, .gate (.run (.arm 0))), (0, .stmt),
+   (0, .call .close 0), (0, .stmt), (0, .gate (.run (.arm 0))), (0, .stmt), (0, .stmt), (0, .stmt),
+   (0, .stmt), (0, .gate (.run (.arm 0))), (0, .stmt)]
+
+/-- Witness that the literal reading is false: after `put 7; close` the queue is closed and the
+item 7 is still queued; by `queue_items_before_close` (3) it will never be delivered. -/
+theorem queue_items_survive_close_full_false : ¬ queue_items_survive_close_Statement := by
+  intro hS
+  have hs : (runQ (QConfig.init gate 1) demoClose).isSome = true := by rfl
+  have hr := reachable_runQ demoClose (QReachable.init 1) (Option.some_get hs).symm
+  have := hS _ hr (by rfl)
+  have hq : ((runQ (QConfig.init gate 1) demoClose).get hs).sh.q = [7] := by rfl
+  rw [hq] at this
+  cases this
 
 end NetVerif.Proofs.C29
